@@ -371,6 +371,14 @@ def eval_expr(e, leafval, jitter=None):
     return _eval_node(e, leafval, None)
 
 
+def _int_range(v):
+    """numpy computes integer operands in int64 and wraps silently; an exact python integer beyond that range means the
+    expression (an integer guess to a large integer power) is outside numpy's integer arithmetic."""
+    if isinstance(v, int) and not isinstance(v, bool) and abs(v) > 2 ** 62:
+        raise OverflowError("integer result beyond int64")
+    return v
+
+
 def _eval_node(e, leafval, jitter):
     if e["t"] == "p":
         return leafval(e["i"])
@@ -391,15 +399,15 @@ def _eval_node(e, leafval, jitter):
         pass
     a = eval_expr(e["a"], leafval, jitter)
     b = eval_expr(e["b"], leafval, jitter)
-    if op in ("add", "radd", "np.add"): return a + b
-    if op == "sub": return a - b
-    if op in ("rsub", "np.rsubtract"): return b - a
-    if op in ("mul", "rmul", "np.multiply"): return a * b
-    if op == "div": return a / b
-    if op in ("rdiv", "np.rdivide"): return b / a
-    if op == "pow": return a ** b
-    if op == "rpow": return b ** a
-    return a - b
+    if op in ("add", "radd", "np.add"): return _int_range(a + b)
+    if op == "sub": return _int_range(a - b)
+    if op in ("rsub", "np.rsubtract"): return _int_range(b - a)
+    if op in ("mul", "rmul", "np.multiply"): return _int_range(a * b)
+    if op == "div": return _int_range(a / b)
+    if op in ("rdiv", "np.rdivide"): return _int_range(b / a)
+    if op == "pow": return _int_range(a ** b)
+    if op == "rpow": return _int_range(b ** a)
+    return _int_range(a - b)
 
 
 def run_alg(case):
